@@ -461,3 +461,14 @@ Proof.
   rewrite nth_error_app2 by lia. replace (length l - length l)%nat with 0%nat by lia. cbn [nth_error].
   rewrite removelast_last. reflexivity.
 Qed.
+
+(* the converse direction: index-sorted lists pass the boolean test *)
+Lemma sorted_nondecreasing l : sorted_le l -> nondecreasing l = true.
+Proof.
+  induction l as [|a t IH]; intros Hs; [reflexivity|].
+  destruct t as [|b u]; [reflexivity|]. cbn [nondecreasing]. apply andb_true_iff. split.
+  - specialize (Hs 0 1). rewrite !nthd_cons, !lenN_cons in Hs. replace (0 =? 0) with true in Hs by lia.
+    replace (1 =? 0) with false in Hs by lia. replace (1 - 1 =? 0) with true in Hs by lia.
+    apply N.leb_le. apply Hs; lia.
+  - apply IH. apply (sorted_le_tail _ _ Hs).
+Qed.
